@@ -27,9 +27,9 @@ FINDING_FLAGS = [
     ("pool-map-folder-per-process", "pool:map-folder-per-process", "fix_map"),
     ("free-parameters-drop-own-models", "free:over-own-models", "fix_free_own"),
     ("model-analysis-drops-save-hooks", "fit:with-model-save-hooks", "fix_model_hooks"),
+    ("free-sum-right-of-combined", "free:right-of-combined", "fix_free_right"),
 ]
-L_ORDER, L_MIXED, L_STALE, L_MAP, L_FREE_OWN, L_HOOKS = [x[1] for x in FINDING_FLAGS]
-L_FREE_RIGHT = "free:right-of-combined"       # (x + y) + free-parameter sum is accepted silently (no repair flag)
+L_ORDER, L_MIXED, L_STALE, L_MAP, L_FREE_OWN, L_HOOKS, L_FREE_RIGHT = [x[1] for x in FINDING_FLAGS]
 EXC_KINDS = {"FitException": 0, "ValueError": 1}
 
 
@@ -381,14 +381,18 @@ def vis(ad, s):
 
 
 def expected_struct(c):
-    t = desugar(c["expr"])
+    t = c["_tree"] if "_tree" in c else desugar(c["expr"])
     lv = leaves(t)
     if t[0] == "L":
         return {"kind": "single", "items": [["plain", lv[0][0], lv[0][1]]]}
     if t[0] == "A" and nofree(t):
         kind = "model" if any(h for _, h in lv) else "plain"
-    elif t[0] == "F" and t[1][0] == "A" and nofree(t[1]):
-        kind = "free"
+    elif t[0] == "F":
+        # with_free_parameters of whatever the inner expression is: a combined analysis -> re-wrapped in order
+        inner = expected_struct({"expr": None, "_tree": t[1]})
+        if inner["kind"] in ("plain", "model", "free"):
+            return {"kind": "free", "items": [["idx", it[1], it[2], i] for i, it in enumerate(inner["items"])]}
+        return {"kind": "error"}
     else:
         return {"kind": "error"}
     if kind == "plain":
@@ -877,8 +881,9 @@ def run(ctx):
     else:
         ctx.obligation("impl-driver:pool-returns", "harness", True, "no steering timeout")
     if os.path.exists(os.path.join(common.COQ, "C15", "Model.vo")):
-        hdr = ctx.header(["Model"]) + "\nDefinition the_cfg := mkCfg %s %s %s %s %s %s.\n" % tuple(
-            cbool(cfg[f]) for f in ("fix_order", "fix_new", "fix_drain", "fix_map", "fix_free_own", "fix_model_hooks"))
+        hdr = ctx.header(["Model"]) + "\nDefinition the_cfg := mkCfg %s %s %s %s %s %s %s.\n" % tuple(
+            cbool(cfg[f]) for f in ("fix_order", "fix_new", "fix_drain", "fix_map", "fix_free_own", "fix_model_hooks",
+                                    "fix_free_right"))
         bad, log = ctx.eval_cases(hdr, "case", "check_case the_cfg", coq_cases, shard=80)
         if bad:
             for b in bad[:5]:
